@@ -16,7 +16,7 @@ func init() {
 		Assumptions: []string{"Tendermint delivers identical blocks to all replicas (consensus is a stub)", "map iteration order is the only in-process nondeterminism besides time; the app reads the clock only in Commit/persist (excluded fields LastSaved, Gobpath)"},
 		Real:        []string{"app.ShutterApp (InitChain, CheckTx, BeginBlock, DeliverTx, EndBlock, Commit)", "shmsg signing/decoding", "shutterevents encoding"},
 		Stub:        []string{"Tendermint consensus, mempool, block store (simtm)"},
-		QuickRuns:   3000, ThoroughRuns: 300000, QuickMinimize: 300, ThoroughMinimize: 2000,
+		QuickRuns:   10000, ThoroughRuns: 300000, QuickMinimize: 300, ThoroughMinimize: 2000,
 	})
 }
 
